@@ -80,6 +80,11 @@ def optimal_grouping(R, L, h, p):
     '''
     N = len(p)
 
+    h = numpy.asarray(h)
+    if h.dtype.kind == "u":
+        # the height differences of the cost function would wrap around in an unsigned type
+        h = h.astype(numpy.int64)
+
     # set initial best grouping to be (approx) equal splits 
     gamma_best = numpy.linspace(0,N,L+1,dtype=int)[1:-1]
     gamma_best, G_best = _optGroupingMinimization(gamma_best, h, p)
